@@ -187,6 +187,12 @@ def build_inputs(tier):
             cases.append(("with", (s[:-1], ctx, body[:-1], "", r.choice(BEFORE))))
     for hdr in ["with! x: \n", "with! x:  # c\n", "with! x:\t\n"]:
         cases.append(("with", (hdr + "    a\n    b\n", "x", "a\nb\n", "z = 1\n", "")))
+    # a physical line of the block that holds nothing but a backslash continuation yields no token of its own
+    # (found through the gap theorem of C08: such a line lies entirely between two tokens)
+    for blk, want in [("    x = 1 + \\\n    \\\n    2\n    y = 3\n", "x = 1 + \\\n\\\n2\ny = 3\n"),
+                      ("    x = 1 + \\\n\\\n    2\n    y = 3\n", "    x = 1 + \\\n\\\n    2\n    y = 3\n"),
+                      ("    f(a,\n      b) + \\\n      \\\n    c\n", "f(a,\n  b) + \\\n  \\\nc\n")]:
+        cases.append(("with", ("with! a:\n" + blk, "a", want, "z = 1\n", "")))
     # the same block bodies in a CRLF source: the captured text keeps the source's own line ends
     for _ in range(120 * N):
         s, ctx, body = xonshgen.gen_with_macro(r)
@@ -217,6 +223,13 @@ def classify(kind, o):
         # the block is passed undedented: exactly what a margin-less textwrap.dedent of the CRLF text gives
         if (o.get("got") or "") and textwrap.dedent(o["got"].replace("\r\n", "\n")).replace("\n", "\r\n") == o.get("want"):
             return "KF-C07-crlf-blank-line-in-block"
+    if kind == "with" and o.get("kind") == "body-not-verbatim" and re.search(r"\n[ \t]*\\\r?\n", src):
+        import textwrap
+
+        # exactly the block without its continuation-only lines (dedented)
+        kept = [ln for ln in (o.get("want") or "").splitlines(keepends=True) if ln.strip() != "\\"]
+        if textwrap.dedent("".join(kept)) == o.get("got"):
+            return "KF-C07-continuation-only-line"
     if kind == "proc" and o.get("kind") in ("rejected", "rest-not-verbatim", "macro-count") and o.get("proc_rest_class"):
         return "KF-C07-proc-macro-token-kinds"
     return None
